@@ -94,11 +94,17 @@ structure State where
   vsps : Map SP
   rps : Map Nat
   clients : Nat → Nat
+  /-- the setting `num_validators_rewarded` is 0 (an invalid value that the post-demeter `update_settings` stores
+  unvalidated): `getRandomSubSlice` then hands `blobberReward`/`blobberPenalty` an EMPTY validator list -/
+  nvr0 : Bool := false
 
 def init : State :=
   { now := 1700000000, nallocs := 0, wallet := 0, allocs := fun _ => none, cps := fun _ => none,
     blobbers := fun _ => none, sps := fun _ => none, vsps := fun _ => none, rps := fun _ => none,
     clients := fun _ => 10000000000000000 }
+
+/-- the initial state with `num_validators_rewarded = 0` -/
+def initNvr0 : State := { init with nvr0 := true }
 
 inductive Err where
   | fail (reason : String)    -- the call fails as the code would reject it: no state change
@@ -117,6 +123,18 @@ def findBA : List BA → Nat → Option BA
 def setBA : List BA → Nat → BA → List BA
   | [], _, _ => []
   | d :: ds, i, d' => if d.blobber = i then d' :: ds else d :: setBA ds i d'
+
+/-- Go's unchecked `uint64` subtraction (`alloc.BlobberAllocs[i].ChallengePoolIntegralValue -= ch.Value`,
+allocation.go 812): wraps modulo 2^64 -/
+def wrapSub (a b : Nat) : Nat := if b ≤ a then a - b else a + 2 ^ 64 - b
+
+/-- what a passed challenge debits from the challenge pool: the whole reduction `D` of the blobber's value, except that
+`moveToValidators` returns early on an empty validator list (challengepool.go 101) — then the validators' share `V`
+stays in the pool although the blobber's value was reduced by it -/
+def valDebit (nvr0 : Bool) (D V : Nat) : Nat := if nvr0 then D - V else D
+
+/-- … and nothing is credited to validators then -/
+def valCredit (nvr0 : Bool) (V : Nat) : Nat := if nvr0 then 0 else V
 
 def sumCv : List BA → Nat
   | [] => 0
@@ -380,14 +398,14 @@ def respPass (s : State) (k i D m V dp : Nat) (credits : List (Nat × Nat)) : R 
   | some a =>
     match s.cps k, s.sps i, findBA a.bas i with
     | some cp, some sp, some d =>
-      if d.cv < D ∨ D < m + V ∨ cp < D ∨ sp.stake < dp ∨ V < sumCredits credits then .error (.inadm "challenge-amounts") else
+      if d.cv < D ∨ D < m + V ∨ cp < D ∨ sp.stake < dp ∨ valCredit s.nvr0 V < sumCredits credits then .error (.inadm "challenge-amounts") else
       let sp1 : SP := { sp with stake := sp.stake - dp }
       match creditValidators s.vsps credits with
       | none => .error (.inadm "unknown-validator")
       | some vs =>
         .ok { s with
           allocs := s.allocs.set k (some { a with wp := a.wp + m, mb := a.mb + m, bas := setBA a.bas i { d with cv := d.cv - D } }),
-          cps := s.cps.set k (some (cp - D)),
+          cps := s.cps.set k (some (cp - valDebit s.nvr0 D V)),
           sps := s.sps.set i (some { sp1 with rewards := sp1.rewards + credit sp1 (D - m - V) }),
           vsps := vs }
     | _, _, _ => .error (.inadm "challenge-missing-node")
@@ -498,7 +516,7 @@ def extendAll (grow : Bool) (diff newSize : Nat) : State → List BA → Except 
 
 /-- `adjustChallengePool`: per blobber allocation the observed signed change `x`: `x > 0` moves write pool → challenge
 pool (`moveToChallengePool`: `x ≤ WritePool`), `x < 0` moves back (`moveFromChallengePool`: `|x| ≤ cp`; the per-blobber
-value is decremented unchecked in the code — admissible only if it does not wrap). Folded over the list, carrying
+value is decremented UNCHECKED in the code and wraps modulo 2^64 when `|x|` exceeds it: `wrapSub`). Folded over the list, carrying
 `(wp, cp, mtc, mb)`. -/
 def adjust : List BA → List Int → Nat → Nat → Nat → Nat → Option (List BA × Nat × Nat × Nat × Nat)
   | [], [], wp, cp, mtc, mb => some ([], wp, cp, mtc, mb)
@@ -511,10 +529,10 @@ def adjust : List BA → List Int → Nat → Nat → Nat → Nat → Option (Li
       | some (ds', wp', cp', mtc', mb') => some ({ d with cv := d.cv + v } :: ds', wp', cp', mtc', mb')
     else
       let v := (-x).toNat
-      if cp < v ∨ d.cv < v then none else
+      if cp < v then none else
       match adjust ds xs (wp + v) (cp - v) mtc (mb + v) with
       | none => none
-      | some (ds', wp', cp', mtc', mb') => some ({ d with cv := d.cv - v } :: ds', wp', cp', mtc', mb')
+      | some (ds', wp', cp', mtc', mb') => some ({ d with cv := wrapSub d.cv v } :: ds', wp', cp', mtc', mb')
   | _, _, _, _, _, _ => none
 
 /-- `extendAllocation` + `adjustChallengePool`. -/
